@@ -28,7 +28,7 @@ CLAIMED = {
    note="The probe does not start the server; refused = Err, panic or is_valid_config false; TLC ints are 32-bit so observed values above 2e9 are clamped.",
    technique="TLA+ relation + TLC enumeration of written configurations; probes of the real loaders decided by trace validation"),
  "C17": dict(level="model_checking", ref="6 C17",
-   text="Stats.tla models per-worker per-client and aggregated recorders, the snapshot queue and the reporter; TLC checks Conservation, Bounded, UntrackedZero, MergePreserves, Equivalent and the action property Exclusive on every sequence of the 8 recording ops x 3 addresses (+ snapshot/merge/report) up to 3 (quick) / 4 with 2 workers (thorough) ops, and emits one behaviour per transition; each is executed on real PerClientStats(limit)/AggregatedStats/StatsQueue/Reporter objects logging the projection after every op, and TLC validates every step of those logs and of seeded sequences up to 10,000 ops (Trace_Stats.tla: logged post-state must be an allowed outcome; invariants evaluated in every state). Apalache proves Conservation/Bounded/UntrackedZero as an inductive invariant of the recorder (StatsInd.tla: any number of events); the file written by Reporter::report() is decoded (zstd+csv) and compared with the merged sums.",
+   text="Stats.tla models per-worker per-client and aggregated recorders, the snapshot queue and the reporter; TLC checks Conservation, Bounded, UntrackedZero, MergePreserves, Equivalent and the action property Exclusive on every sequence of the 8 recording ops x 3 addresses (+ snapshot/merge/report) up to 3 (quick) / 4 with 2 workers (thorough) ops, and emits one behaviour per transition; each is executed on real PerClientStats(limit)/AggregatedStats/StatsQueue/Reporter objects logging the projection after every op, and TLC validates every step of those logs and of seeded sequences up to 10,000 ops (Trace_Stats.tla: logged post-state must be an allowed outcome; invariants evaluated in every state). Apalache proves Conservation/Bounded/UntrackedZero as an inductive invariant of the recorder (StatsInd.tla: any number of events); the file written by Reporter::report() is decoded (zstd+csv) and compared with the merged sums. The abstract addresses are concretised in turn as IPv4, IPv4-mapped IPv6 (including a mapped address embedding another key's IPv4) and IPv6 addresses. In the running in-process server, valid requests from a source the operating system refuses to send to (raw socket, source port 0) exercise failed sends anywhere in a batch: ServerAbs.tla requires valid = replies + failed, one failed-send count per such request, responses/bytes = what was received.",
    note="Property level allows either counting or overflowing an event for an already-tracked address when the table is full (code overflows). Snapshot replicates Server::send_client_stats on library objects; the running server's wiring is checked by the server suite stage when present.",
    technique="TLA+ state machine + TLC; behaviours replayed into the real recorders; step-wise trace validation against Stats.tla"),
 
@@ -45,7 +45,7 @@ CLAIMED = {
    note="Wedge detection reads the socket's rx_queue from /proc/net/udp; a panic is caught per call and the same Server object keeps being used.",
    technique="TLC safety+liveness on Server.tla; trace validation of a real in-process Server against ServerAbs.tla"),
  "C09": dict(level="model_checking", ref="6 C09",
-   text="Server.tla is model-checked (AtMostOnce, OwnSlot, ExactlyOnce at quiescence, OwnProtocol, NoReplyToInvalid, NoStranded, BatchBound, Responsive) for batch sizes 1..3 and 4 (thorough 5) datagrams of kinds {classic, IETF, invalid} arriving at any step; every arrival schedule that runs to quiescence is replayed into the real Server through the synchronous hook tracer (arrivals before poll, after the k-th recv, after a WouldBlock); bursts from 48 sockets with several requests per socket, identical nonces, late arrivals and batch sizes 1..64 are recorded; TLC validates all traces against ServerAbs.tla (exactly one response, to its sender, own nonce, own proof, own protocol). The spec's stranding variant is used as a self-test.",
+   text="Server.tla is model-checked (AtMostOnce, OwnSlot, ExactlyOnce at quiescence, OwnProtocol, NoReplyToInvalid, NoStranded, BatchBound, Responsive) for batch sizes 1..3 and 4 (thorough 5) datagrams of kinds {classic, IETF, invalid} arriving at any step; every arrival schedule that runs to quiescence is replayed into the real Server through the synchronous hook tracer (arrivals before poll, after the k-th recv, after a WouldBlock); bursts from 48 sockets with several requests per socket, identical nonces, retransmissions (the same datagram from the same socket back to back), requests whose response cannot be sent, late arrivals, backlogs of more batches than one wake-up handles, and batch sizes 1..64 are recorded; TLC validates all traces against ServerAbs.tla (exactly one response, to its sender, own nonce, own proof, own protocol). The spec's stranding variant is used as a self-test.",
    note="Arrival points are reproduced at hook events inside collect_requests; facts about replies come from the interpretation.",
    technique="TLC on Server.tla (refines ServerAbs.tla); arrival schedules replayed through hooks; trace validation"),
  "C10": dict(level="model_checking", ref="6 C10",
@@ -57,7 +57,7 @@ CLAIMED = {
    note="64-bit values are converted to digit tuples by the harness (TLC ints are 32-bit); harness and server read the same system clock.",
    technique="TLA+ arithmetic spec + TLC enumeration replayed into make_srep; trace validation of recorded clocks and live replies"),
  "C12": dict(level="model_checking", ref="6 C12",
-   text="TLC enumerates all 5461 VER lists of length 0..6 over {draft-13, classic 0, two unknown numbers} x SRV {absent, this server, another server} (16383 cases) from Request.tla and checks the classification theorems; each case is sent to an in-process Server followed by a sentinel, plus the 256 single-bit SRV corruptions, wrong SRV lengths and another server's value; TLC validates reply presence per class and the signed VER/VERS fields.",
+   text="TLC enumerates all 5461 VER lists of length 0..6 over {draft-13, classic 0, two unknown numbers} x SRV {absent, this server, another server} (16383 cases) from Request.tla and checks the classification theorems; each case is sent to an in-process Server followed by a sentinel, plus the 256 single-bit SRV corruptions, wrong SRV lengths and another server's value; a second configuration enumerates all lists of length 0..3 (thorough 0..4) over draft-13 and eight adversarial unknown numbers (neighbouring entries that contain the draft-13 bytes across their boundary at byte offsets 1/2/3, the number without its top bit, the byte-swapped number); TLC validates reply presence per class and the signed VER/VERS fields.",
    note="draft-13 beyond the fourth VER entry is 'may'.",
    technique="TLC enumeration from Request.tla replayed into a real in-process Server; trace validation against ServerAbs.tla"),
  "C20": dict(level="model_checking", ref="6 C20",
@@ -74,7 +74,7 @@ CLAIMED = {
    note="Printed time is read back with -j -z -f '%s.%f'; the relay sees every datagram so the facts are computed on the real server's responses.",
    technique="TLC on Client.tla; real client vs reference responder and real server; runs validated against Trace_Client.tla"),
  "C15": dict(level="model_checking", ref="6 C15",
-   text="Process.tla models main, workers, the configuration mutex (poisoning), the health-check bind, the reporter and the signal handler; TLC checks FullyServing and NeverKeepsRunningDegraded under fairness for N<=3 (the plain-bind variant violates both: self-test) and Server.tla for the worker loop; Health.tla models the edge-triggered health-check listener (accept until WouldBlock; one / bounded accepts per event strand connections: self-tests) and its connection schedules are replayed into an in-process Server through the hooks. The real binary is started for example.cfg, a default-worker-count configuration and a sample of the documented option space; per run the per-thread hook logs are validated against Process.tla with one cursor per thread (TLC finds the interleaving; worker lock acquisitions are numbered under the mutex), and the observations (N workers serving, bursts answered, every simultaneous TCP health connection answered while time requests are served, no panic output, alive) are decided by the trace specification.",
+   text="Process.tla models main, workers, the configuration mutex (poisoning), the health-check bind, the reporter and the signal handler; TLC checks FullyServing and NeverKeepsRunningDegraded under fairness for N<=3 (the plain-bind variant violates both: self-test) and Server.tla for the worker loop; Health.tla models the edge-triggered health-check listener (accept until WouldBlock; one / bounded accepts per event strand connections: self-tests) and its connection schedules, including connections the peer resets while they wait in the accept queue (a loop ended by the failed write strands the rest: self-test), are replayed into an in-process Server through the hooks. The real binary is started for example.cfg, a default-worker-count configuration and a sample of the documented option space; per run the per-thread hook logs are validated against Process.tla with one cursor per thread (TLC finds the interleaving; worker lock acquisitions are numbered under the mutex), and the observations (N workers serving, bursts answered, every simultaneous TCP health connection answered while time requests are served, no panic output, alive) are decided by the trace specification.",
    note="Schedules of the real process are sampled; exhaustive only in the model. Ports picked by binding port 0 first.",
    technique="TLC liveness/safety on Process.tla; multi-cursor trace validation of the real binary's hook logs and observations"),
  "C18": dict(level="model_checking", ref="6 C18",
@@ -82,7 +82,7 @@ CLAIMED = {
    note="OS scheduling and SO_REUSEPORT distribution are sampled over seeded rounds.",
    technique="trace validation of the real multi-worker binary against ServerAbs.tla and Process.tla"),
  "C19": dict(level="model_checking", ref="6 C19",
-   text="Process.tla: liveness Stops (signal leads to exit 0) under weak fairness of every thread and NO fairness or bound on arriving datagrams, CleanExit; the unbounded-drain variant violates Stops with the drain/Arrive lasso (self-test). The real binary is signalled (INT/TERM) at seeded delays while idle, under closed-loop load and under an open-loop flood, with 1/4(/16) workers and the reporter on/off: exit status 0 within 5 s, no panic output, hook logs consistent with Process.tla, every reply received before exit still valid. Further scenarios: the statistics hand-off under load with a 1 s status interval and the signal sent the moment the server stops answering; file descriptors exhausted when health-check connections arrive, then the signal.",
+   text="Process.tla: liveness Stops (signal leads to exit 0) under weak fairness of every thread and NO fairness or bound on arriving datagrams, CleanExit; the unbounded-drain variant violates Stops with the drain/Arrive lasso (self-test). The real binary is signalled (INT/TERM) at seeded delays while idle, under closed-loop load and under an open-loop flood, with 1/4(/16) workers and the reporter on/off: exit status 0 within 5 s, no panic output, hook logs consistent with Process.tla, every reply received before exit still valid. The statistics reporter thread is traced too (r_pass / r_received / r_reported / r_exit) and Process.tla models its loop; schedules in which a reporter pass outlasts its one-second cadence, or workers are slow at the start-up lock, are produced by delay injection at hook events (the variant in which a long pass kills the reporter violates CleanExit: self-test). Further scenarios: the statistics hand-off under load with a 1 s status interval and the signal sent the moment the server stops answering; file descriptors exhausted when health-check connections arrive, then the signal.",
    note="'a few seconds' = 5 s.",
    technique="TLC liveness on Process.tla; signal scenarios on the real binary validated by Trace_Process.tla / Trace_Server.tla"),
 }
